@@ -544,8 +544,8 @@ def corpus_empty_layers(fx):
         {"op": "startup", "env": ["OLLAMA_NOPRUNE=1"]},
         {"op": "delete", "name": "example.com/ns/mid:t"},
         {"op": "delete", "name": "d-mid"},
-        # (the records of the deleted layers are still there: the next pull takes their chunks for fetched and fails at the
-        #  commit — "incomplete or corrupt" — until a restart prunes the records; nothing is listed by it)
+        # (the records of the deleted layers are still there; the scratch files are not: since fix 701fe013a no record counts
+        #  when the scratch file is empty on opening, every chunk is fetched again and the pull succeeds)
         p2("example.com/ns/stale:t", [(0, g1), (4, b"")]),
         {"op": "startup"},
         {"op": "blob", "digest": EMPTY_DIGEST, "data": ""},                                  # uploaded, used by nothing
@@ -559,7 +559,36 @@ def corpus_empty_layers(fx):
     ]
 
 
+def corpus_pull_over_existing(fx):
+    """the old pull over a model that exists (its clean-up of the replaced manifest's layers must keep what another model or
+    the new manifest still uses), then the start-up prune; create from a GGUF whose detected template equals the TEMPLATE given"""
+    g0, g1, cfg = fx.data["g0"], fx.data["g1"], CONFIGS[0]
+
+    def p1(name, bodies):
+        man = {"schemaVersion": 2, "mediaType": "application/vnd.docker.distribution.manifest.v2+json",
+               "config": mk_layer(8, cfg), "layers": [mk_layer(mt, b) for mt, b in bodies]}
+        n = parse_name(name)
+        return {"op": "pull", "name": name, "_served": [b for _, b in bodies] + [cfg], "_manifest": man,
+                "registry": {"manifests": {(n[1] + "/" + n[2] + ":" + n[3]).lower(): man},
+                             "blobs": {"sha256:" + sha(b): b.hex() for _, b in bodies + [(8, cfg)]}}}
+    s1, s2, lic = SYSTEMS[0].encode(), SYSTEMS[1].encode(), LICENSES[0].encode()
+    return [
+        p1("example.com/ns/a:t", [(0, g0), (4, s1), (7, lic)]),
+        {"op": "copy", "src": "example.com/ns/a:t", "dst": "example.com/ns/b:t"},
+        p1("example.com/ns/a:t", [(0, g0), (4, s2)]),          # replaces a:t; g0 and the config stay in use, s1 and the license by b:t
+        {"op": "startup"},
+        p1("example.com/ns/b:t", [(0, g1), (4, s2)]),          # replaces b:t: now s1, the license (and g0? no: a:t) go
+        {"op": "startup"},
+        {"op": "blob", "digest": "sha256:" + sha(fx.data["gt"]), "data": fx.data["gt"].hex(), "_fx": "gt"},
+        {"op": "create", "name": "same-tpl", "files": {"m.gguf": "sha256:" + sha(fx.data["gt"])}, "_fx": "gt",
+         "template": fx.det_bytes[("gt", 3)].decode()},
+        {"op": "create", "name": "other-tpl", "files": {"m.gguf": "sha256:" + sha(fx.data["gt"])}, "_fx": "gt", "template": TEMPLATES[1]},
+        {"op": "startup"},
+    ]
+
+
 CORPUS = [
+    ("pull-over-existing-then-prune", corpus_pull_over_existing),
     ("pulls-with-empty-layers", corpus_empty_layers),
     # faults before a create: uploads and a create request whose bodies end with a read error after 0 / a few /
     # more than 2^20 bytes; the layers the server makes afterwards (system, template, params, messages, license,
@@ -988,7 +1017,11 @@ def monitor_step(op, before, o):
         for kind, d in check_complete(st, m):
             spelled = "canonical" if re.match(r"^sha256:[0-9a-f]{64}$", d) else "non-canonical"
             own = op["op"] == "create" and fold(tuple(m["path"].split("/"))) in op_target(op)
-            out.append(({"class": "listed-incomplete", "cause": kind, "spelling": spelled, "own_create": own},
+            # (the one known way a create loses a layer of its own: a text layer with the bytes of the params JSON that PARAMETER replaces)
+            lic = op.get("license") or []
+            texts = [op.get("system"), op.get("template")] + ([lic] if isinstance(lic, str) else list(lic))
+            pc = bool(own and kind == "missing" and op.get("parameters") and any(t and sha(t.encode()) == d[7:] for t in texts))
+            out.append(({"class": "listed-incomplete", "cause": kind, "spelling": spelled, "own_create": own, "params_collision": pc},
                         "model %s: layer %s is %s after %s" % (m["path"], d, kind, op["op"])))
     # every blob file holds the content its name is the hash of (re-hashed after every operation), used or not
     was = {b["name"]: b["sha"] for b in before["blobs"]}
